@@ -343,10 +343,15 @@ namespace foonathan
                 if (auto remaining = std::size_t(block_end() - stack_.top()))
                 {
                     auto offset = detail::align_offset(stack_.top(), detail::max_alignment);
-                    if (offset < remaining)
+                    // only if the rest is big enough for the pool to get at least one node out of it
+                    if (offset < remaining
+                        && remaining - offset
+                               >= pool_type::type::min_block_size(pool.node_size(), 1))
                     {
                         detail::debug_fill(stack_.top(), offset, debug_magic::alignment_memory);
                         pool.insert(stack_.top() + offset, remaining - offset);
+                        // the rest of the block belongs to the pool now, it must not be reserved again
+                        stack_.bump(remaining);
                         return true;
                     }
                 }
